@@ -1,8 +1,8 @@
 #!/bin/sh
-# usage: tools/regress_parallel.sh <N>   -- regression of every seeded change in N isolated copies (/tmp/rg<i>/{repo,verif}), so that
+# usage: [REGRESS_FILTER=<regex over the change directories>] tools/regress_parallel.sh <N>   -- regression of every seeded change in N isolated copies (/tmp/rg<i>/{repo,verif}), so that
 # /repo and /verif stay free.  Each copy rewrites the absolute /repo paths of the harness to its own clone.  Results: /tmp/rg<i>/regress.log
 N=${1:-4}
-ls -d /verif/seeded/C*/ | sort > /tmp/rg_all.txt
+ls -d /verif/seeded/C*/ | sort | grep -E "${REGRESS_FILTER:-.}" > /tmp/rg_all.txt
 for i in $(seq 1 $N); do
   d=/tmp/rg$i; rm -rf $d; mkdir -p $d
   git clone -q /repo $d/repo
